@@ -4,6 +4,7 @@
 #pragma once
 #include "ksi_util.hpp"
 #include "pki_fixture.hpp"
+#include "pki_fixture_ec.hpp"
 #include <openssl/x509.h>
 #include <openssl/x509v3.h>
 #include <openssl/pem.h>
@@ -17,6 +18,7 @@ struct Ident { std::string name; EVP_PKEY *key = nullptr; X509 *cert = nullptr; 
 typedef std::vector<std::pair<std::string, std::string>> SubjectAttrs; // (short name or OID, value - may contain NUL)
 struct TestPki {
     Ident rootA, rootB, interA, s[4];
+    EVP_PKEY *ecKey = nullptr;   // P-256; certificates for it are minted on demand
     std::string dir, fileA, fileB, fileAB, fileEmpty;
     static EVP_PKEY *loadKey(const char *pem) { BIO *b = BIO_new_mem_buf(pem, -1); EVP_PKEY *k = PEM_read_bio_PrivateKey(b, nullptr, nullptr, nullptr); BIO_free(b); return k; }
     static X509 *loadCert(const char *pem) { BIO *b = BIO_new_mem_buf(pem, -1); X509 *c = PEM_read_bio_X509(b, nullptr, nullptr, nullptr); BIO_free(b); return c; }
@@ -30,6 +32,7 @@ struct TestPki {
         using namespace pkifx;
         fill(rootA, "rootA", kRootAKey, kRootACrt); fill(rootB, "rootB", kRootBKey, kRootBCrt); fill(interA, "interA", kInterAKey, kInterACrt);
         fill(s[0], "s0", kS0Key, kS0Crt); fill(s[1], "s1", kS1Key, kS1Crt); fill(s[2], "s2", kS2Key, kS2Crt); fill(s[3], "s3", kS3Key, kS3Crt);
+        ecKey = loadKey(pkifx::kEcKey);
         const char *sc = getenv("VERIF_SCRATCH"); dir = sc ? sc : "/verif/build/scratch";
         fileA = dir + "/anchor-A.pem"; fileB = dir + "/anchor-B.pem"; fileAB = dir + "/anchor-AB.pem"; fileEmpty = dir + "/anchor-none.pem";
         writeFile(fileA, rootA.pem); writeFile(fileB, rootB.pem); writeFile(fileAB, rootA.pem + rootB.pem);
